@@ -16,6 +16,9 @@ type Env struct {
 	sub    map[ssa.Value]*Val
 	header *ssa.BasicBlock
 	noLocals bool
+	inOld    bool
+	wantCur  bool
+	at       ssa.Instruction // program point of the clause (for source-level locals)
 	qOff     map[string]map[string]bool // quantified variable term -> slice offsets it is added to
 	qShift   map[string]string          // quantified variable -> offset it has been shifted by
 	qPats    *[]string
@@ -46,6 +49,12 @@ func (v *Env) lookup(name string) *Val {
 		return &Val{typ: tInt, c: []string{t}}
 	}
 	if x, ok := v.vars[name]; ok {
+		if v.wantCur && v.at != nil {
+			// cur(x): the current value of a parameter that the body reassigns
+			if r := v.reaching(name); r != nil {
+				return r
+			}
+		}
 		return x
 	}
 	if p, ok := v.e.freeRef[name]; ok {
@@ -74,11 +83,21 @@ func (v *Env) lookup(name string) *Val {
 			}
 		}
 	}
+	// package-level constant
+	if c := v.pkgConst(name); c != nil {
+		return c
+	}
+	// source-level local: the definition that reaches the program point of the clause
+	if v.at != nil {
+		if x := v.reaching(name); x != nil {
+			return x
+		}
+	}
 	// source-level local through debug references (ssa.GlobalDebug)
 	for _, b := range v.e.fn.Blocks {
 		for _, in := range b.Instrs {
 			if d, ok := in.(*ssa.DebugRef); ok && !d.IsAddr {
-				if obj := d.Object(); obj != nil && obj.Name() == name {
+				if obj := d.Object(); obj != nil && obj.Name() == name && !isFieldObj(obj) {
 					if x, ok := v.e.vals[d.X]; ok {
 						return x
 					}
@@ -96,6 +115,105 @@ func (v *Env) lookup(name string) *Val {
 		}
 	}
 	panic("contract: unknown identifier " + name)
+}
+
+func (v *Env) pkgConst(name string) *Val {
+	if v.e.fn.Pkg == nil {
+		return nil
+	}
+	pk := v.e.fn.Pkg.Pkg
+	if f := v.e.fn; f.Parent() != nil {
+		for f.Parent() != nil {
+			f = f.Parent()
+		}
+		if f.Pkg != nil {
+			pk = f.Pkg.Pkg
+		}
+	}
+	if c, ok := pk.Scope().Lookup(name).(*types.Const); ok {
+		return v.e.constVal(ssa.NewConst(c.Val(), c.Type()))
+	}
+	return nil
+}
+
+func (v *Env) debugRefVal(d *ssa.DebugRef) *Val {
+	if d.IsAddr {
+		pt, ok := d.X.Type().Underlying().(*types.Pointer)
+		if !ok {
+			return nil
+		}
+		pv, ok := v.e.vals[d.X]
+		if !ok {
+			return nil
+		}
+		return v.e.loadAt(v.st, pv.c[0], pt.Elem())
+	}
+	if x, ok := v.e.vals[d.X]; ok {
+		return x
+	}
+	if c, ok := d.X.(*ssa.Const); ok {
+		return v.e.constVal(c)
+	}
+	return nil
+}
+
+// reaching finds the value of source variable name at v.at: the nearest definition (debug reference or phi) walking
+// backwards in the block and then up the dominator tree.
+func (v *Env) reaching(name string) *Val {
+	b := v.at.Block()
+	idx := len(b.Instrs)
+	for i, in := range b.Instrs {
+		if in == v.at {
+			idx = i
+		}
+	}
+	for b != nil {
+		for i := idx - 1; i >= 0; i-- {
+			switch d := b.Instrs[i].(type) {
+			case *ssa.DebugRef:
+				if obj := d.Object(); obj != nil && obj.Name() == name && !isFieldObj(obj) {
+					if x := v.debugRefVal(d); x != nil {
+						return x
+					}
+				}
+			case *ssa.Phi:
+				if d.Comment == name {
+					if s, ok := v.sub[d]; ok {
+						return s
+					}
+					if x, ok := v.e.vals[d]; ok {
+						return x
+					}
+				}
+			}
+		}
+		b = b.Idom()
+		if b != nil {
+			idx = len(b.Instrs)
+		}
+	}
+	return nil
+}
+
+// firstDef: the first definition of source variable name in the function (its initial value).
+func (v *Env) firstDef(name string) *Val {
+	for _, b := range v.e.fn.Blocks {
+		for _, in := range b.Instrs {
+			if d, ok := in.(*ssa.DebugRef); ok && !d.IsAddr {
+				if obj := d.Object(); obj != nil && obj.Name() == name && !isFieldObj(obj) {
+					if x := v.debugRefVal(d); x != nil {
+						return x
+					}
+				}
+			}
+		}
+	}
+	return nil
+}
+
+func isFieldObj(o types.Object) bool {
+	v, ok := o.(*types.Var)
+	return ok && v.IsField()
 }
 
 func (v *Env) eval(x Expr) *Val {
@@ -117,6 +235,7 @@ func (v *Env) eval(x Expr) *Val {
 		return v.lookup(x.Name)
 	case *EOld:
 		o := *v
+		o.inOld = true
 		o.st = v.old
 		return o.eval(x.X)
 	case *ESel:
@@ -197,6 +316,67 @@ func (v *Env) eval(x Expr) *Val {
 			return v.e.ufTerm(fmt.Sprintf("path/filepath.Join%d", len(as)), as, types.Typ[types.String])
 		case "Dir":
 			return v.e.ufTerm("path/filepath.Dir", []*Val{v.eval(x.Args[0])}, types.Typ[types.String])
+		case "resultof":
+			ts, ok := x.Args[0].(*EStr)
+			if !ok {
+				panic("contract: resultof(\"callee#n\")")
+			}
+			if r, ok := e.siteResults[ts.S]; ok {
+				return r
+			}
+			panic("contract: no call site " + ts.S + " before this point")
+		case "cur":
+			c := *v
+			c.wantCur = true
+			return c.eval(x.Args[0])
+		case "first":
+			id, ok := x.Args[0].(*EIdent)
+			if !ok {
+				panic("contract: first(name)")
+			}
+			if r := v.firstDef(id.Name); r != nil {
+				return r
+			}
+			panic("contract: no definition of " + id.Name)
+		case "cast":
+			a := v.eval(x.Args[0])
+			ts, ok := x.Args[1].(*EStr)
+			if !ok {
+				panic("contract: cast(x, \"*pkg.T\")")
+			}
+			t := e.lookupType(ts.S)
+			if t == nil {
+				panic("contract: unknown type " + ts.S)
+			}
+			return &Val{typ: t, c: []string{a.c[1]}}
+		case "dyntype":
+			a := v.eval(x.Args[0])
+			ts, ok := x.Args[1].(*EStr)
+			if !ok {
+				panic("contract: dyntype(x, \"*pkg.T\")")
+			}
+			t := e.lookupType(ts.S)
+			if t == nil {
+				panic("contract: unknown type " + ts.S)
+			}
+			return &Val{typ: tBool, c: []string{eq(a.c[0], e.typeTag(t))}}
+		case "reached":
+			ts, ok := x.Args[0].(*EStr)
+			if !ok {
+				panic("contract: reached(\"callee#n\")")
+			}
+			e.ghostSites[ts.S] = true
+			if t, ok := v.st.m["G|reached|"+ts.S]; ok {
+				return &Val{typ: tBool, c: []string{t}}
+			}
+			return &Val{typ: tBool, c: []string{"false"}}
+		case "deref":
+			a := v.eval(x.Args[0])
+			pt, ok := a.typ.Underlying().(*types.Pointer)
+			if !ok {
+				panic("contract: deref of non-pointer")
+			}
+			return e.loadAt(v.st, a.c[0], pt.Elem())
 		case "ite":
 			c, a, b := v.formula(x.Args[0]), v.eval(x.Args[1]), v.eval(x.Args[2])
 			return &Val{typ: a.typ, c: []string{ite(c, a.c[0], b.c[0])}}
@@ -237,6 +417,9 @@ func (v *Env) eval(x Expr) *Val {
 		body := inner.formula(x.Body)
 		return &Val{typ: tBool, c: []string{fmt.Sprintf("(exists ((%s Str)) %s)", bv, body)}}
 	case *EForall:
+		if ks := v.inferKeySort(x.Body, x.Var); ks != "" && ks != x.Sort {
+			x = &EForall{Var: x.Var, Body: x.Body, Sort: ks}
+		}
 		inner := *v
 		inner.bound = map[string]string{}
 		for k, t := range v.bound {
@@ -245,7 +428,7 @@ func (v *Env) eval(x Expr) *Val {
 		e.n++
 		bv := fmt.Sprintf("q%d!%s", e.n, x.Var)
 		inner.bound[x.Var] = bv
-		if x.Sort == "Str" {
+		if x.Sort != "Int" {
 			inner.boundStr = map[string]bool{}
 			for k := range v.boundStr {
 				inner.boundStr[k] = true
@@ -320,6 +503,9 @@ func (v *Env) eval(x Expr) *Val {
 		case "<", "<=", ">", ">=":
 			return &Val{typ: tBool, c: []string{app(x.Op, l.c[0], r.c[0])}}
 		case "+", "-", "*":
+			if x.Op == "+" && l.typ != nil && isString(l.typ) {
+				return &Val{typ: l.typ, c: []string{e.concat(l.c[0], r.c[0])}}
+			}
 			return &Val{typ: tInt, c: []string{app(x.Op, l.c[0], r.c[0])}}
 		case "/":
 			return &Val{typ: tInt, c: []string{app("div", l.c[0], r.c[0])}}
@@ -442,4 +628,63 @@ func (v *Env) ifaceUF(x *ECall) (*Val, bool) {
 		rt = res.At(0).Type()
 	}
 	return v.e.ufTerm("iface."+key, args, rt), true
+}
+
+// inferKeySort: when the bound variable of a quantifier is used as a map key, the quantifier ranges over that map's
+// key sort (so the same contract works for every instantiation of a generic function).
+func (v *Env) inferKeySort(x Expr, name string) (sort string) {
+	defer func() {
+		if recover() != nil {
+			sort = ""
+		}
+	}()
+	isVar := func(e Expr) bool {
+		id, ok := e.(*EIdent)
+		return ok && id.Name == name
+	}
+	var walk func(e Expr) string
+	walk = func(e Expr) string {
+		switch e := e.(type) {
+		case *ECall:
+			if e.Fn == "has" && len(e.Args) == 2 && isVar(e.Args[1]) {
+				if mi := mapInfoOf(v.eval(e.Args[0]).typ); mi.ok {
+					return mi.ksort
+				}
+			}
+			for _, a := range e.Args {
+				if s := walk(a); s != "" {
+					return s
+				}
+			}
+		case *EIndex:
+			if isVar(e.I) {
+				if b := v.eval(e.X); b.typ != nil {
+					if mi := mapInfoOf(b.typ); mi.ok {
+						return mi.ksort
+					}
+				}
+			}
+			if s := walk(e.X); s != "" {
+				return s
+			}
+			return walk(e.I)
+		case *ESel:
+			return walk(e.X)
+		case *EUnary:
+			return walk(e.X)
+		case *EBinary:
+			if s := walk(e.L); s != "" {
+				return s
+			}
+			return walk(e.R)
+		case *EOld:
+			return walk(e.X)
+		case *EForall:
+			if e.Var != name {
+				return walk(e.Body)
+			}
+		}
+		return ""
+	}
+	return walk(x)
 }
